@@ -19,6 +19,9 @@ Decided:
   C11.tab    block type and picture type tables are inverse (C02/C03 check them against the RFC)
   C11.panic  engine B over the metadata writer entry points
   C11.inv    every construction of BlockSize / BlockBits is bounded by the 24-bit limit (shared with C10)
+  C11.contig (also) the two halves of a struct's Adjacent impl (valid_first / is_next) examine the same fields of self
+  C11.frame  (also) every block handed to write_blocks is written: no filter / skip / take on the list
+  C11.upd    updating a file rewinds to where its blocks were read and opens it without truncation (taken from C10)
 Not decided: value equality after a round trip.
 """
 from rules.common import *
@@ -83,19 +86,42 @@ def _self_fields(F, b):
             fs = place_fields(p)
             if fs:
                 out.add(fs[0])
-    for bl in b.blocks:
-        for st in bl["s"]:
-            rv = st["rv"]
-            for o in rv_operands(rv):
-                visit(op_place(o))
-            if rv["r"] in ("ref", "disc", "len") and isinstance(rv.get("p"), dict):
-                visit(rv["p"])
-        t = bl["t"]
-        if t and t["t"] == "call":
-            for a in t["a"]:
-                visit(op_place(a))
-        elif t and t["t"] == "switch":
-            visit(op_place(t["o"]))
+    def places(body):
+        for bl in body.blocks:
+            for st in bl["s"]:
+                rv = st["rv"]
+                for o in rv_operands(rv):
+                    yield op_place(o)
+                if rv["r"] in ("ref", "disc", "len") and isinstance(rv.get("p"), dict):
+                    yield rv["p"]
+            t = bl["t"]
+            if t and t["t"] == "call":
+                for a in t["a"]:
+                    yield op_place(a)
+            elif t and t["t"] == "switch":
+                yield op_place(t["o"])
+    for p in places(b):
+        visit(p)
+    # closures that captured `self` whole (or a field of it): what they read of the capture
+    for cb in F.closures_of(b, recursive=False):
+        aggs = [st for bl in b.blocks for st in bl["s"] if st["rv"]["r"] == "agg" and st["rv"].get("ak") == "closure" and st["rv"].get("adt") == cb.path]
+        if len(aggs) != 1:
+            continue
+        for p in places(cb):
+            if p is None:
+                continue
+            rp = root_place(cb, p)
+            if rp is None or rp["l"] != 1 or not rp["p"]:
+                continue
+            proj = [e for e in rp["p"] if e != "*"]
+            m = re.match(r"^\.(\d+):", proj[0]) if proj else None
+            if not m or int(m.group(1)) >= len(aggs[0]["rv"]["ops"]):
+                continue
+            src = root_place(b, aggs[0]["rv"]["ops"][int(m.group(1))])
+            if src is not None and src["l"] == 1:
+                fs = place_fields(src) + place_fields({"l": 1, "p": proj[1:]})
+                if fs:
+                    out.add(fs[0])
     return out
 
 
@@ -208,19 +234,27 @@ def run(ctx, rep):
         rep.check("C11.size", "SEEKTABLE point count = size / 18 with size % 18 == 0", len(c18) == 2, loc_of(b))
 
     # ---- C11.frame: block framing (last-block flag, exact block length) ------------------------------------------
-    il = F.body("metadata::write_blocks::iter_last::{closure#0}")
-    if il is None:
-        rep.bad("C11.frame", "anchor:write_blocks::iter_last closure", "", "not found")
-    else:
-        good = False
-        for bi, bl in enumerate(il.blocks):
+    # the pairing of each block with its "last" flag lives in an item nested in write_blocks (a closure of iter_last, or the
+    # next() of a local iterator type): wherever a (flag, block) pair is built there, the flag is peek().is_none()
+    ils = [x for x in F.bodies if x.promoted is None and "metadata::write_blocks::" in x.path]
+    pairs_, good = 0, True
+    il = ils[0] if ils else None
+    for x in ils:
+        for bi, bl in enumerate(x.blocks):
             for st_ in bl["s"]:
                 rv = st_["rv"]
-                if rv["r"] == "agg" and rv["ak"] == "tuple" and len(rv["ops"]) == 2:
-                    src = [c for k, c in origins(il, rv["ops"][0]) if k == "call"]
+                if rv["r"] == "agg" and rv["ak"] == "tuple" and len(rv["ops"]) == 2 and op_place(rv["ops"][0]) is not None and x.local_ty(op_place(rv["ops"][0])["l"]) == "bool":
+                    pairs_ += 1
+                    il = x
+                    src = [c for k, c in origins(x, rv["ops"][0]) if k == "call"]
+                    this = False
                     if len(src) == 1 and re.search(r"Option::<T>::is_none$", callee_name(src[0])):
-                        pk = backward_slice(il, src[0]["a"][0])["calls"]
-                        good = len(pk) == 1 and re.search(r"Peekable::<I>::peek$", callee_name(pk[0])) is not None
+                        pk = backward_slice(x, src[0]["a"][0])["calls"]
+                        this = len(pk) == 1 and re.search(r"Peekable::<I>::peek$", callee_name(pk[0])) is not None
+                    good = good and this
+    if not pairs_:
+        rep.bad("C11.frame", "anchor:(last flag, block) pair in write_blocks", "", "not found")
+    else:
         rep.check("C11.frame", "writer: a block is flagged last exactly when no block follows (peek().is_none())", good, loc_of(il), "",
                   "the last-block flag written into the block headers is not `no further block follows`: readers stop early or run into the audio frames")
     wbk = anchor(F, rep, "C11.frame", "metadata::write_blocks")
